@@ -33,8 +33,9 @@ type c12case struct {
 	Seed    int64  `json:"seed"`    // world seed of the fixture
 	Hex     string `json:"hex,omitempty"`
 	// msg
-	Batch int  `json:"batch,omitempty"` // register a pending block-range batch of this capacity (id 7) first
-	Twice bool `json:"twice,omitempty"` // deliver the frame twice (second delivery = already processed)
+	Batch   int  `json:"batch,omitempty"`   // register a pending block-range batch of this capacity (id 7) first
+	Twice   bool `json:"twice,omitempty"`   // deliver the frame twice (second delivery = already processed)
+	Syncing bool `json:"syncing,omitempty"` // the node is syncing while the frame is handled (blockchain.StartSync)
 	// tx
 	Entry string `json:"entry,omitempty"` // tx: validate|pool-validate|pool-add|process|apply ; block: gated|raw ; fuzz-obj: kind
 	Mode  int    `json:"mode,omitempty"`
@@ -190,6 +191,9 @@ func runCase(fx *fixture, cs c12case) string {
 		return fmt.Sprint("ok ", len(out))
 	case "msg", "fuzz-msg":
 		frame := unhex(cs.Hex)
+		if cs.Syncing && !fx.n.Pool.IsSyncing() { // replay of a case of the syncing stream
+			fx.n.Chain.StartSync()
+		}
 		fx.gossip.Reset()
 		if cs.Batch > 0 {
 			fx.gossip.RegisterBatch(7, cs.Batch)
